@@ -10,7 +10,7 @@ import (
 
 var htmlTags = []string{"div", "p", "span", "table", "tr", "td", "ul", "li", "a", "b", "i", "br", "img", "svg", "rect", "math", "mi",
 	"template", "select", "option", "title", "script", "style", "textarea", "form", "input", "h1", "body", "head", "html", "x:y", "foreignObject", "desc"}
-var htmlAttrs = []string{"id", "class", "href", "xlink:href", "xmlns", "xmlns:xlink", "data-x", "xml:lang", "a:b:c", "XMLNS:q", "viewBox"}
+var htmlAttrs = []string{"id", "class", "href", "xlink:href", "xmlns", "xmlns:xlink", "data-x", "xml:lang", "a:b:c", "XMLNS:q", "viewBox", "cfg:xmlns", "x:xmlns:y", "xmlnsx", "xml:xmlns", "xlink:xmlns"}
 
 func GenHtml(r *Rng, n int) string {
 	var b strings.Builder
